@@ -300,6 +300,27 @@ end CRes
 
 /-! ## types -/
 
+/-- `#[serde(default, skip_serializing_if = "…")]` on a struct field: the field is left out of
+    the serialised map when the predicate holds (serde_derive already excludes it from the `len`
+    it passes to `serialize_struct`) and takes its `Default` when it is missing on input. -/
+inductive SkipIf where
+  | never                                 -- no attribute
+  | isNone                                -- `Option::is_none` on an `Option<_>` field
+  | isEmpty                               -- `Vec::is_empty` on a `Vec<_>` field
+  deriving DecidableEq, Repr, Inhabited
+
+/-- the predicate, on the value as the Serializer would see it -/
+def SkipIf.holds : SkipIf → SVal → Bool
+  | .isNone, .none => true
+  | .isEmpty, .seq _ [] => true
+  | _, _ => false
+
+/-- `Default::default()` of the field's type, for a missing field -/
+def SkipIf.dflt : SkipIf → Option SVal
+  | .never => none
+  | .isNone => some .none
+  | .isEmpty => some (.seq true [])
+
 mutual
 /-- What a `Deserialize` impl asks for. -/
 inductive SType where
@@ -318,6 +339,8 @@ inductive SType where
   | tupleStruct (ts : List SType)
   | map (known : Bool) (k v : SType)      -- BTreeMap<K, V>
   | struct (names : List Bytes) (ts : List SType)
+  /-- a struct some of whose fields carry `#[serde(default, skip_serializing_if = …)]` -/
+  | structS (names : List Bytes) (ts : List SType) (skips : List SkipIf)
   | enum (names : List Bytes) (vs : List VShape)            -- externally tagged (the default)
   /-- struct with one `#[serde(flatten)]` member of struct type between `pre` and `post` -/
   | flat (preN : List Bytes) (preT : List SType) (inN : List Bytes) (inT : List SType)
@@ -331,6 +354,7 @@ inductive VShape where
   | newtype (t : SType)
   | tuple (ts : List SType)
   | struct (names : List Bytes) (ts : List SType)
+  | structS (names : List Bytes) (ts : List SType) (skips : List SkipIf)
 end
 
 instance : Inhabited SType := ⟨.unit⟩
@@ -426,6 +450,29 @@ def deStructBody (fs : List FieldDec) : Dec (List SVal) := do
   let len ← Dec.map
   let fd ← mapLoop (structStep fs) len []
   match finishFields fs fd with
+  | some kvs => pure kvs
+  | none => fail .message
+
+/-- after the loop, with `skip_serializing_if` fields: a missing field takes its default (or `None`
+    for an `Option`); the result is the trace of the rebuilt value, which again leaves out every
+    field whose predicate holds. -/
+def finishSkip : List FieldDec → List SkipIf → Found → Option (List SVal)
+  | [], _, _ => some []
+  | f :: fs, sk, fd =>
+    let k := sk.headD .never
+    match (match fd.get? f.name with
+           | some v => some v
+           | none => if f.opt then some SVal.none else k.dflt) with
+    | none => none
+    | some v =>
+      match finishSkip fs sk.tail fd with
+      | none => none
+      | some rest => some (if k.holds v then rest else SVal.str f.name :: v :: rest)
+
+def deStructSBody (fs : List FieldDec) (sk : List SkipIf) : Dec (List SVal) := do
+  let len ← Dec.map
+  let fd ← mapLoop (structStep fs) len []
+  match finishSkip fs sk fd with
   | some kvs => pure kvs
   | none => fail .message
 
@@ -532,9 +579,9 @@ def singleChar : Bytes → Option Nat
     else none
   | _ => none
 
-/-- `f32 as f64` through `num_as_copysign_self`: a NaN becomes the default NaN with the sign kept. -/
-def f32AsF64 (b : Nat) : Nat :=
-  if isNan32 b then 0x7ff8000000000000 + (b / 2147483648) * 9223372036854775808 else f32ToF64 b
+/-- `f32 as f64` through serde's `num_as_copysign_self` (`(v as f64).copysign(sign of v)`): the
+    plain widening, which keeps the sign and the payload of a NaN and quiets a signalling one. -/
+def f32AsF64 (b : Nat) : Nat := f32ToF64 b
 
 /-- Rust's `n as f32` / `n as f64` for an unsigned integer: round to nearest, ties to even
     (`mbits` mantissa bits, exponent bias `ebias`); the result is the bit pattern. -/
@@ -614,6 +661,7 @@ def fromC : SType → Bool → Content → CRes SVal
   | .struct names ts, own, c => do
     let kvs ← cStruct (fieldCs names ts own) true c
     pure (.struct kvs)
+  | .structS .., _, _ => .unmodelled
   | .enum names vs, own, c => cEnum (varCs names vs own) c
   | .flat .., _, _ => .unmodelled
   | .itag .., _, _ => .unmodelled
@@ -644,6 +692,7 @@ def varC : Bytes → VShape → Bool → Option Content → CRes SVal
   | n, .struct names ts, own, c => match c with
     | some c => do let kvs ← cStruct (fieldCs names ts own) true c; pure (.structVariant n kvs)
     | none => .fail
+  | _, .structS .., _, _ => .unmodelled
 end
 
 /-! ## de.rs composed with the std / derive visitors -/
@@ -877,6 +926,7 @@ def itagC (tag n : Bytes) : VShape → Option Content → CRes SVal
       | _ => .unmodelled
     | none => .fail
   | .tuple _, _ => .unmodelled                -- rejected by serde_derive at compile time
+  | .structS .., _ => .unmodelled
 
 def itagDecs (tag : Bytes) : List Bytes → List VShape → List VarDec
   | n :: ns, s :: ss => ⟨n, fail .custom, itagC tag n s⟩ :: itagDecs tag ns ss
@@ -894,6 +944,7 @@ def untaggedC : VShape → Content → CRes SVal
   | .struct names ts, c => do                 -- no `visit_seq` for untagged struct variants
     let kvs ← cStruct (fieldCs names ts false) false c
     pure (.struct kvs)
+  | .structS .., _ => .unmodelled
 
 def untaggedCs : List VShape → List (Content → CRes SVal)
   | [] => []
@@ -942,6 +993,9 @@ def de : SType → Dec SVal
   | .struct names ts => do                                      -- deserialize_struct = deserialize_map
     let kvs ← deStructBody (fieldDecs names ts)
     pure (.struct kvs)
+  | .structS names ts skips => do
+    let kvs ← deStructSBody (fieldDecs names ts) skips
+    pure (.struct kvs)
   | .enum names vs => deEnumBody (varDecs names vs)
   | .flat preN preT inN inT postN postT =>
     deFlatBody (fieldDecs preN preT) (fieldCs inN inT true) (fieldDecs postN postT)
@@ -975,6 +1029,9 @@ def deVar : Bytes → VShape → Dec SVal
   | n, .struct names ts => do
     let kvs ← deStructBody (fieldDecs names ts)
     pure (.structVariant n kvs)
+  | n, .structS names ts skips => do
+    let kvs ← deStructSBody (fieldDecs names ts) skips
+    pure (.structVariant n kvs)
 def adjDecs : List Bytes → List VShape → List AdjDec
   | n :: ns, s :: ss => adjDec n s :: adjDecs ns ss
   | _, _ => []
@@ -1000,6 +1057,7 @@ def adjDec : Bytes → VShape → AdjDec
     ⟨n, (do let kvs ← deStructAny (fieldDecs names ts); pure (some (.struct kvs))),
         (fun c => do let kvs ← cStruct (fieldCs names ts true) false c; pure (some (.struct kvs))),
         none⟩
+  | n, .structS .. => ⟨n, fail .custom, (fun _ => .unmodelled), none⟩
 end
 
 /-! ## the native codec on the shared data model (C18)
